@@ -1,6 +1,8 @@
 """C04 -- prediction step is x' = f(x,u), P' = G P G^T + V M V^T."""
 import copy
+import json
 
+import cppcheck
 import numeric
 import scen
 from build import named
@@ -54,7 +56,17 @@ def _post(ctx, scns, results):
     twins = [t for t in (rescaled_control_twin(s) for s in scns) if t is not None]
     r = scen.replay_all(ctx, twins, cse_settings=(False,), force_ekf=True)
     c = scen.record_results(ctx, r, key_prefix="rescaled-control:")
-    return {"rescaled_control_twins": len(twins), "rescaled_control": c}
+    # the same prediction histories in the generated C++ filter (one filter object, dt values repeat while state and control
+    # change): behaviours with a control and at least two predictions with the same dt first
+    def repeats(s_):
+        dts = [json.dumps(st["dt"]) for st in s_["steps"] if st["act"] == "Predict"]
+        return bool(s_["def"]["control"]) and len(dts) - len(set(dts)) >= 1
+    mix = [s_ for s_ in scns if str(s_.get("_id", "")).endswith(":mix") and repeats(s_)]
+    rest = [s_ for s_ in scns if repeats(s_) and s_ not in mix]
+    pick = (mix + rest)[: (8 if ctx.quick else 120)]
+    rc = cppcheck.replay_cpp(ctx, pick, cse_settings=(True,), kind="ekf")
+    k = cppcheck.record(ctx, rc, key_prefix="cpp:")
+    return {"rescaled_control_twins": len(twins), "rescaled_control": c, "cpp": k}
 
 
 def run(ctx):
@@ -64,7 +76,7 @@ def run(ctx):
              "TLC's exact G P G^T + V M V^T, checks that the inputs were not modified and that repeating the call is identical; "
              "every behaviour with a control is replayed again with that control measured in units 2^20 times larger (noise variance ~1e-12)",
         scope="simulation: 1-3 states, 0-2 controls (distinct per-control noise), 0-2 calibrations, rational fragment, SPD integer covariances D + v v^T",
-        assumptions=numeric.BASE_ASSUME + [REPO_ASSUME], repo_tests=True)
+        assumptions=numeric.BASE_ASSUME + [REPO_ASSUME], repo_tests=True, extra_sims=[(("MC_EKF", "MC_C04mix_sim.cfg"), 24)])
 
 
 def replay(ctx, path):
